@@ -268,6 +268,35 @@ pub struct RunOut {
     pub widths: Vec<usize>,
 }
 
+fn timed_out(r: &RunOut) -> bool {
+    r.trace.contains("HANG timeout") || r.violation.as_ref().is_some_and(|v| v.text.contains("HANG timeout"))
+}
+
+/// Runs confirmed as real hangs / found to be slow-machine artefacts by [`confirmed`].
+pub static HANGS_CONFIRMED: std::sync::atomic::AtomicU64 = std::sync::atomic::AtomicU64::new(0);
+pub static HANGS_NOT_REPRODUCED: std::sync::atomic::AtomicU64 = std::sync::atomic::AtomicU64::new(0);
+
+/// A run that ended in a watchdog time-out (not a detected self-deadlock) is executed again -- same seed, same
+/// schedule -- with a 20 s watchdog, and only the second execution counts: a thread that was descheduled for
+/// two seconds on an overloaded machine is not a hang of the library. After three hangs have been confirmed
+/// in this process further time-outs are believed at once.
+fn confirmed(f: impl Fn() -> RunOut) -> RunOut {
+    use std::sync::atomic::Ordering::SeqCst;
+    let r = f();
+    if !timed_out(&r) || HANGS_CONFIRMED.load(SeqCst) >= 3 {
+        return r;
+    }
+    crate::sched::WATCHDOG_OVERRIDE.with(|c| c.set(Some(std::time::Duration::from_secs(20))));
+    let r2 = f();
+    crate::sched::WATCHDOG_OVERRIDE.with(|c| c.set(None));
+    if timed_out(&r2) {
+        HANGS_CONFIRMED.fetch_add(1, SeqCst);
+    } else {
+        HANGS_NOT_REPRODUCED.fetch_add(1, SeqCst);
+    }
+    r2
+}
+
 /// Collects the trace text of a run while driving the executor.
 struct Recorder {
     ex: Executor,
@@ -1238,7 +1267,7 @@ impl Summary {
             format!("[{}]", v.join(","))
         }
         format!(
-            "{{\"family\":\"{}\",\"backend\":\"{}\",\"seed\":{},\"runs\":{},\"steps\":{},\"seconds\":{:.3},\"runs_per_second\":{:.0},\"label_kinds\":{},\"monitor_hits\":{},\"failing_runs\":{},\"replay_files\":{},\"programs\":{},\"programs_exhausted\":{},\"programs_truncated\":{},\"leaked_threads\":{}}}",
+            "{{\"family\":\"{}\",\"backend\":\"{}\",\"seed\":{},\"runs\":{},\"steps\":{},\"seconds\":{:.3},\"runs_per_second\":{:.0},\"label_kinds\":{},\"monitor_hits\":{},\"failing_runs\":{},\"replay_files\":{},\"programs\":{},\"programs_exhausted\":{},\"programs_truncated\":{},\"leaked_threads\":{},\"hangs_confirmed\":{},\"timeouts_not_reproduced\":{}}}",
             opts.family,
             opts.backend.name(),
             opts.seed,
@@ -1254,6 +1283,8 @@ impl Summary {
             self.exhausted_programs,
             self.truncated_programs,
             crate::sched::LEAKED_THREADS.load(Ordering::Relaxed),
+            HANGS_CONFIRMED.load(Ordering::Relaxed),
+            HANGS_NOT_REPRODUCED.load(Ordering::Relaxed),
         )
     }
 }
@@ -1340,7 +1371,7 @@ pub fn explore(opts: ExploreOpts) -> Result<String, String> {
             count as usize,
             opts.threads,
             move |i| {
-                let r = if with_stream { scale_stream_run(backend, owned, seed, i as u64) } else { scale_run(backend, owned, seed, i as u64) };
+                let r = confirmed(|| if with_stream { scale_stream_run(backend, owned, seed, i as u64) } else { scale_run(backend, owned, seed, i as u64) });
                 (vec![r], ChunkInfo::default())
             },
             |runs, _| {
@@ -1366,9 +1397,11 @@ pub fn explore(opts: ExploreOpts) -> Result<String, String> {
                 let hi = (lo + CHUNK).min(count);
                 (
                     (lo..hi)
-                        .map(|run| match fork {
-                            None => random_run(&f2, backend, owned, seed, run),
-                            Some((frun, n)) => random_run_fork(&f2, backend, owned, seed, frun, Some((n, run))),
+                        .map(|run| {
+                            confirmed(|| match fork {
+                                None => random_run(&f2, backend, owned, seed, run),
+                                Some((frun, n)) => random_run_fork(&f2, backend, owned, seed, frun, Some((n, run))),
+                            })
                         })
                         .collect(),
                     ChunkInfo::default(),
@@ -1406,7 +1439,7 @@ pub fn explore(opts: ExploreOpts) -> Result<String, String> {
                     .map(|f| std::io::BufWriter::with_capacity(1 << 16, f));
                 loop {
                     let id = format!("{}-{}-{}-p{}s{}", fam, backend.name(), seed, i, n);
-                    let mut r = dfs_run(prog, backend, ow, &id, &path);
+                    let mut r = confirmed(|| dfs_run(prog, backend, ow, &id, &path));
                     let np = next_path(&path, &r.widths);
                     if n == 0 {
                         if let Some(p) = part.as_mut() {
